@@ -61,8 +61,21 @@ package stdlib
 //@   params (this, a, b)
 //@   pure
 //@   ensures result0 == eqv(this, a, b) && result1 == eqok(this, a, b)
+//@ smt
+//@ (declare-fun tvf (Int Int) Real)
+//@ (declare-fun tokf (Int Int) Bool)
+//@ (declare-fun eqvf (Int Real Real) Real)
+//@ (define-fun-rec foldf ((e Int) (a (Array Int Int)) (o Int) (c Int) (n Int)) Real
+//@   (ite (<= n 1) (tvf (select a o) c) (eqvf e (foldf e a o c (- n 1)) (tvf (select a (+ o (- n 1))) c))))
+//@ end
 //@ functype rare/pkg/expressions/stdlib.typedStage[float64]
+//@   params (this, ctx)
 //@   pure
+//@   ensures result0 == tvf(this, ctx) && result1 == tokf(this, ctx)
+//@ functype func(float64, float64) float64
+//@   params (this, a, b)
+//@   pure
+//@   ensures result == eqvf(this, a, b)
 
 //@ func arithmaticHelperi
 //@   requires equation != nil
@@ -383,6 +396,13 @@ package stdlib
 //@ func arithmaticHelperiChecked$1$1
 //@   ensures [bad-first] !tok((*typedArgs)[0], context) ==> result == "<BAD-TYPE>"
 //@   ensures [fold] (forall j in [0, len(*args)) :: tok((*typedArgs)[j], context)) && (forall k in [1, len(*args)) :: eqok(*equation, foldi(*equation, arr(*typedArgs), off(*typedArgs), context, k), tv((*typedArgs)[k], context))) ==> result == itoa(foldi(*equation, arr(*typedArgs), off(*typedArgs), context, len(*args)))
+//@   assert at "return ErrorNum"#* : exists j in [0, len(*args)) :: !tok((*typedArgs)[j], context)
 //@   assert at "return ErrorValue" : !eqok(*equation, foldi(*equation, arr(*typedArgs), off(*typedArgs), context, i), tv((*typedArgs)[i], context))
 //@   loop 1 invariant 1 <= i && i <= len(*args) && final == foldi(*equation, arr(*typedArgs), off(*typedArgs), context, i)
 //@   loop 1 invariant (forall j in [0, i) :: tok((*typedArgs)[j], context)) && (forall k in [1, i) :: eqok(*equation, foldi(*equation, arr(*typedArgs), off(*typedArgs), context, k), tv((*typedArgs)[k], context)))
+// the float helpers fold the same way; the result is printed by strconv.FormatFloat(., 'f', -1, 64)
+//@ func arithmaticHelperf$1$1
+//@   ensures [bad-first] !tokf((*typedArgs)[0], context) ==> result == "<BAD-TYPE>"
+//@   assert at "return strconv.FormatFloat(final, 'f', -1, 64)" : final == foldf(*equation, arr(*typedArgs), off(*typedArgs), context, len(*args)) && (forall j in [0, len(*args)) :: tokf((*typedArgs)[j], context))
+//@   assert at "return ErrorNum"#* : exists j in [0, len(*args)) :: !tokf((*typedArgs)[j], context)
+//@   loop 1 invariant 1 <= i && i <= len(*args) && final == foldf(*equation, arr(*typedArgs), off(*typedArgs), context, i) && (forall j in [0, i) :: tokf((*typedArgs)[j], context))
